@@ -52,8 +52,9 @@ LEVEL = "exploration"
 TECHNIQUE = (
     "model-based stateful testing: generated operator/host histories interpreted in lock-step by the real "
     "GemEquipmentHandler (real HSMS/TCP classes on simulated sockets, deterministic scheduler, virtual clock, scripted raw "
-    "host) and an E30 control-state reference model; all 24 configurations enumerated; all histories up to length 2 "
-    "(quick) / 3 (thorough) over the basic alphabet enumerated"
+    "host) and an E30 control-state reference model; all 24 configurations enumerated; enumerated per configuration: every "
+    "basic op in every state reached by <= 1 (quick) / <= 3 (thorough) transitions, every transition-causing history up to "
+    "length 4 / 6, every request kind arriving while ATTEMPT_ONLINE; plus generated histories"
 )
 RULE = (
     "Configurations: initial in {EQUIPMENT_OFFLINE, ATTEMPT_ONLINE, HOST_OFFLINE, ONLINE} x online in {LOCAL, REMOTE} x probe "
@@ -102,6 +103,11 @@ class Model:
         self.state = state  # leaf state
         self.sub = sub  # remembered LOCAL/REMOTE switch setting
         self.enabled = set()  # enabled CEIDs of {1, 2, 3}
+
+    def clone(self):
+        c = Model(self.state, self.sub)
+        c.enabled = set(self.enabled)
+        return c
 
     def _enter_online(self):
         """transition 7; returns the event of the sub-state entered."""
@@ -257,7 +263,7 @@ def run_case(case, observe=None, tolerate=()):
     cfg = case["cfg"]
     ops = case["ops"]
     stats = {"events": 0, "visited": set(), "unconstrained": 0, "remembered_cycle": False, "refused": 0, "ce_checked": 0,
-             "during": 0, "known": {}, "trans": set()}
+             "during": 0, "during_skipped": 0, "queued": 0, "known": {}, "trans": set()}
     first_failure = [None]
 
     with hsmsrig.make_world(case.get("sched", {})) as w:
@@ -309,8 +315,9 @@ def run_case(case, observe=None, tolerate=()):
             rest = [f for f in other if f["system"] != s]
             return mine, evs, rest
 
-        def check_events(tag, sb, i, evs, expected):
-            """expected: [(ceid, svnum, optional)] of the transitions taken, before the enabled filter."""
+        def events_mismatch(evs, expected):
+            """expected: [(ceid, svnum, optional)] of the transitions taken, before the enabled filter.
+            Returns None or (kind, ceid, got, must)."""
             must = sorted(c for c, _, opt in expected if c in m.enabled and not opt)
             may = sorted(c for c, _, opt in expected if c in m.enabled and opt)
             got = sorted(c if c is not None else -1 for c, _ in evs)
@@ -319,12 +326,21 @@ def run_case(case, observe=None, tolerate=()):
                 if c in rest:
                     rest.remove(c)
                 else:
-                    return fail(f"{tag}@{sb}:event-missing-ceid{c}", i, f"S6F11 CEIDs {got}", f"S6F11 CEIDs {must} (enabled {sorted(m.enabled)})")
+                    return ("missing", c, got, must)
             for c in may:
                 if c in rest:
                     rest.remove(c)
             if rest:
-                return fail(f"{tag}@{sb}:event-unexpected-ceid{rest[0]}", i, f"S6F11 CEIDs {got}", f"S6F11 CEIDs {must} (enabled {sorted(m.enabled)})")
+                return ("unexpected", rest[0], got, must)
+            return None
+
+        def check_events(tag, sb, i, evs, expected, check_values=True):
+            mm = events_mismatch(evs, expected)
+            if mm is not None:
+                kind, c, got, must = mm
+                return fail(f"{tag}@{sb}:event-{kind}-ceid{c}", i, f"S6F11 CEIDs {got}", f"S6F11 CEIDs {must} (enabled {sorted(m.enabled)})")
+            if not check_values:
+                return None
             want_sv = {c: sv for c, sv, _ in expected}
             for c, svs in evs:
                 stats["ce_checked"] += 1
@@ -378,13 +394,21 @@ def run_case(case, observe=None, tolerate=()):
             sim.settle()
             return t, box
 
-        def do_operator(what, tag, i):
-            """operator request that does not block (everything but an allowed 'online')."""
+        def do_operator(what, tag, i, queue=None):
+            """operator request (everything but an allowed 'online'). queue = list: the request arrives while the probe of
+            ATTEMPT_ONLINE is in progress; an implementation that serialises transitions may keep the call waiting until
+            that transition is complete (it is then evaluated in the state reached, see do_online)."""
             sb, sub_before = m.state, m.sub
             t, box = operator_call(what)
             evs, other = answer_events()
             if t.state != "DONE":
-                return fail(f"{tag}@{sb}:operator-call-blocks", i, sim.blocked_report(), "call returns")
+                if queue is None:
+                    return fail(f"{tag}@{sb}:operator-call-blocks", i, sim.blocked_report(), "call returns")
+                queue.append((what, t, box))
+                stats["queued"] += 1
+                if evs or other:
+                    return fail(f"{tag}@{sb}:message-while-request-waits", i, (evs, [(o["stream"], o["function"]) for o in other]), "nothing sent before the request takes effect")
+                return None
             allowed, expected = m.operator(what)
             if not allowed:
                 stats["refused"] += 1
@@ -457,7 +481,7 @@ def run_case(case, observe=None, tolerate=()):
                 fr = rig.data_out()
                 r = real()
                 probes = [f for f in fr if (f["stream"], f["function"], f["w"]) == (1, 1, 1)]
-                if r != AO or t.state == "DONE":
+                if r != AO:  # (whether the call blocks during the probe or returns at once is not pinned)
                     how = "refused" if box.get("raised") else f"state-{r}"
                     return fail(f"{tag}@{sb}:{how}-instead-of-ATTEMPT_ONLINE", i, f"state {r}, call {'returned' if t.state == 'DONE' else 'pending'}, raised {box.get('raised')}, sent {[(f['stream'], f['function']) for f in fr]}", "ATTEMPT_ONLINE, waiting for the answer to S1F1")
                 if len(probes) != 1 or len(fr) != 1:
@@ -466,14 +490,18 @@ def run_case(case, observe=None, tolerate=()):
             f = check_sv(tag, AO, i)
             if f:
                 return f
+            queued = []
             for d in op.get("during", ()):
+                if d in ("offline", "local", "remote") and queued:
+                    stats["during_skipped"] += 1  # a second request behind a waiting one: order of effect not defined
+                    continue
                 stats["during"] += 1
                 if d in ("s1f15", "s1f17"):
                     f = do_host(d, "host-" + d.upper(), i)
                 elif d == "s1f3":
                     f = check_sv("host-S1F3", AO, i)
                 else:
-                    f = do_operator(d, "operator-" + d, i)
+                    f = do_operator(d, "operator-" + d, i, queue=queued)
                 if f:
                     return f
                 f = check_state("during-" + d, AO, i)
@@ -486,29 +514,45 @@ def run_case(case, observe=None, tolerate=()):
             else:
                 sim.advance(T3 + 1)
             evs, other = answer_events()
+            tag2 = f"{tag}-{op['probe']}"
             if t is not None and t.state != "DONE":
                 return fail(f"{tag}@{AO}:operator-call-hangs-after-{op['probe']}", i, sim.blocked_report(), "control_switch_online returns")
+            for what, tq, _ in queued:
+                if tq.state != "DONE":
+                    return fail(f"operator-{what}@{AO}:waiting-call-hangs-after-{op['probe']}", i, sim.blocked_report(), "call returns once the probe is complete")
+            stats["trans"].add("probe-" + op["probe"])
+            # candidate outcomes: 5+7 | 4 to either fail state; then the request that waited, evaluated in the state reached
+            cands = []
             if op["probe"] == "s1f2":
-                expected = m.probe_answered()
-                stats["trans"].add("probe-s1f2")
-                f = check_state(tag + "-s1f2", AO, i)
+                c = m.clone()
+                cands.append((c, c.probe_answered()))
             else:
-                expected = []
-                stats["trans"].add("probe-" + op["probe"])
-                r = real()
-                if r not in (EO, HO):
-                    return fail(f"{tag}-{op['probe']}@{AO}:state-{r}-instead-of-fail-state", i, r, "EQUIPMENT_OFFLINE or HOST_OFFLINE")
-                m.state = r
+                for fs in (EO, HO):
+                    c = m.clone()
+                    c.state = fs
+                    cands.append((c, []))
                 stats["unconstrained"] += 1
-                f = None
-            if f:
-                return f
-            f = check_events(tag + "-" + op["probe"], AO, i, evs, expected)
+            for what, _, boxq in queued:
+                for c, exp in cands:
+                    sq = c.state
+                    allowed, e2 = c.operator(what)
+                    if not allowed and what in ("local", "remote") and sq not in ONLINE_STATES and boxq["raised"] is None:
+                        c.sub = what.upper()
+                    exp.extend(e2)
+            r = real()
+            match = [(c, exp) for c, exp in cands if c.state == r]
+            if not match:
+                want = "fail-state" if (op["probe"] != "s1f2" and not queued) else "-or-".join(sorted({c.state for c, _ in cands}))
+                return fail(f"{tag2}@{AO}:state-{r}-instead-of-{want}", i, r, " or ".join(sorted({c.state for c, _ in cands})) + (f" (then operator {queued[0][0]})" if queued else ""))
+            chosen = next(((c, exp) for c, exp in match if events_mismatch(evs, exp) is None), match[0])
+            m.state, m.sub = chosen[0].state, chosen[0].sub
+            # with a request that waited, a report may be built after the second transition: values not compared then
+            f = check_events(tag2 + ("+" + queued[0][0] if queued else ""), AO, i, evs, chosen[1], check_values=not queued)
             if f:
                 return f
             other = [o for o in other if not ((o["stream"], o["function"]) == (9, 9))]
             if other:
-                return fail(f"{tag}-{op['probe']}@{AO}:unexpected-message-S{other[0]['stream']}F{other[0]['function']}", i, [(o["stream"], o["function"]) for o in other], "no message but the S6F11 of the transition")
+                return fail(f"{tag2}@{AO}:unexpected-message-S{other[0]['stream']}F{other[0]['function']}", i, [(o["stream"], o["function"]) for o in other], "no message but the S6F11 of the transition")
             return None
 
         def step(i, op):
@@ -630,6 +674,8 @@ def _classes(case, obs):
         cls.append("not-allowed-operator-request")
     if obs.get("during"):
         cls.append("request-while-ATTEMPT_ONLINE")
+    if obs.get("queued"):
+        cls.append("operator-request-waited-for-probe")
     if obs.get("ce_checked"):
         cls.append("S6F11-checked")
     if case.get("sched", {}).get("seed"):
@@ -668,10 +714,11 @@ def _moving_sequences(state, sub, probe, maxlen):
     return out
 
 
-def enum_cases(cfg, length, moving_len):
-    """Deterministic part: (a) every history up to `length` over the basic alphabet, (b) every transition-causing history up
-    to `moving_len`, all events enabled, (c) the same up to length 3 with no / some events enabled, (d) every request kind
-    arriving while ATTEMPT_ONLINE."""
+def enum_cases(cfg, length, prefix_len, moving_len):
+    """Deterministic part: (a) every history up to `length` over the basic alphabet and every transition-causing history up
+    to `prefix_len` followed by any op of the basic alphabet (every op in every state reached), (b) every
+    transition-causing history up to `moving_len`, all events enabled, (c) the same up to length 3 with no / some events
+    enabled, (d) every request kind arriving while ATTEMPT_ONLINE."""
     probe = cfg["probe"]
     init = {"EQUIPMENT_OFFLINE": EO, "ATTEMPT_ONLINE": HO, "HOST_OFFLINE": HO, "ONLINE": OL if cfg["online"] == "LOCAL" else OR}[cfg["initial"]]
 
@@ -684,6 +731,12 @@ def enum_cases(cfg, length, moving_len):
             ops = [{"op": k, "probe": probe} if k == "online" else {"op": k} for k in seq]
             seen.add(repr(ops))
             yield mk(ops)
+    for pre in _moving_sequences(init, cfg["online"], probe, prefix_len):
+        for k in BASIC_OPS:
+            ops = pre + [{"op": k, "probe": probe} if k == "online" else {"op": k}]
+            if repr(ops) not in seen:
+                seen.add(repr(ops))
+                yield mk(ops)
     for ops in _moving_sequences(init, cfg["online"], probe, moving_len):
         if repr(ops) not in seen:
             yield mk(ops)
@@ -699,8 +752,8 @@ def plan(tier, seed):
     quick = tier == "quick"
     tasks = []
     for c in range(len(CONFIGS)):
-        tasks.append(("enum", {"cfg": c, "length": 2 if quick else 3, "moving": 4 if quick else 6}))
-        tasks.append(("gen", {"cfg": c, "n": 12 if quick else 180, "max_ops": 20 if quick else 60}))
+        tasks.append(("enum", {"cfg": c, "length": 1 if quick else 2, "prefix": 1 if quick else 3, "moving": 4 if quick else 6}))
+        tasks.append(("gen", {"cfg": c, "n": 10 if quick else 180, "max_ops": 20 if quick else 60}))
     return tasks
 
 
@@ -708,7 +761,7 @@ def run_task(name, kw, ctx):
     cfg = CONFIGS[kw["cfg"]]
     tolerate = frozenset(ctx.known_keys)
     if name == "enum":
-        for case in enum_cases(cfg, kw["length"], kw["moving"]):
+        for case in enum_cases(cfg, kw["length"], kw["prefix"], kw["moving"]):
             if ctx.out_of_time():
                 return
             ctx.report(_record(case, ctx, tolerate))
